@@ -144,6 +144,7 @@ func (this *Allocator) run() {
 			if update == nil {
 				continue
 			}
+			verifPoint("allocator.loop.update")
 			switch update.(type) {
 			case *watchPartitionUpdate:
 				_partition := update.(*watchPartitionUpdate).partition
